@@ -24,6 +24,7 @@ class TransitionStorageTest_findTransitionForDateTime {
     }
     return k + "]";
   }
+  static int capacity() { return ace_time::ExtendedZoneProcessor::kMaxTransitions; }
   static int indexFree(const ace_time::ExtendedZoneProcessor& p) { return p.mTransitionStorage.mIndexFree; }
   static int indexPrior(const ace_time::ExtendedZoneProcessor& p) { return p.mTransitionStorage.mIndexPrior; }
   static int indexCandidates(const ace_time::ExtendedZoneProcessor& p) { return p.mTransitionStorage.mIndexCandidates; }
@@ -41,6 +42,7 @@ class BasicZoneProcessorTest_init {
     }
     return k + "]";
   }
+  static int capacity() { return ace_time::BasicZoneProcessor::kMaxCacheEntries; }
   static int numTransitions(const ace_time::BasicZoneProcessor& p) { return p.mNumTransitions; }
   static bool isFilled(const ace_time::BasicZoneProcessor& p) { return p.mIsFilled; }
 };
